@@ -128,6 +128,42 @@ Theorem answers_come_from_configuration :
     (exists e, In e (s_post (config re_ok hist)) /\ flat_route e = r /\ flat_matches re_match e h path m = true).
 Proof. exact answers_from_configuration. Qed.
 
+(** ** 3b. pre and post rules: order is semantics *)
+
+(** the pre (post) scan answers with the FIRST matching rule of the list *)
+Theorem pre_post_first_match_in_order :
+  forall re_match l h path m,
+    match scan_flat re_match l h path m with
+    | Some r => exists l1 e l2, l = l1 ++ e :: l2 /\ flat_matches re_match e h path m = true /\ flat_route e = r /\
+                                forall e', In e' l1 -> flat_matches re_match e' h path m = false
+    | None => forall e, In e l -> flat_matches re_match e h path m = false
+    end.
+Proof. exact scan_flat_first. Qed.
+
+(** adding appends at the end (insertion order = list order); a known identity is refused *)
+Theorem pre_post_add_appends :
+  forall l d p m r,
+    (In (d, p, m) (map ident l) /\ add_flat l d p m r = (l, false)) \/
+    (~ In (d, p, m) (map ident l) /\ add_flat l d p m r = (l ++ [(d, p, m, r)], true)).
+Proof. exact add_flat_spec. Qed.
+
+(** removing takes exactly the entry with that identity out and keeps every
+    other entry at its place relative to the others; after it, no entry with
+    the removed identity is left (removed_never_routes for pre / post rules),
+    for every history *)
+Theorem pre_post_remove_keeps_order :
+  forall re_ok hist fr p d,
+    f_pos fr <> Tree -> parse_path re_ok (f_pkind fr) (f_pval fr) = Some p ->
+    parse_domain re_ok (f_host fr) = DOk d ->
+    let S := config re_ok hist in
+    let S' := config re_ok (hist ++ [ODel fr]) in
+    let l := match f_pos fr with Pre => s_pre S | _ => s_post S end in
+    let l' := match f_pos fr with Pre => s_pre S' | _ => s_post S' end in
+    ~ In (d, p, f_method fr) (map ident l') /\
+    ((l' = l /\ ~ In (d, p, f_method fr) (map ident l)) \/
+     exists l1 r l2, l = l1 ++ (d, p, f_method fr, r) :: l2 /\ l' = l1 ++ l2).
+Proof. exact removed_from_flat. Qed.
+
 (** unrelated_add_remove_irrelevant.  Full statement (properties.jsonl): adding
     or removing a frontend that does not match a request never changes that
     request's route.  The faithful model refutes it ([unrelated_refuted]: a
